@@ -249,6 +249,58 @@ def tasks_for(tier):
     return tasks
 
 
+# Successor states: number printing lies outside the symbolic model (values print as placeholder tokens), so whether a state the
+# library itself produced -- by applying an action -- is still a value (equal to a state with the same content built by the
+# parser, equal to its own text read back) is decided on concrete states: (effect, fluents of the pre-state, fluents expected).
+# Undefined fluents read as zero; values are chosen so that results include 0, whole numbers and fractions.
+SUCCESSOR_PROBES = [
+    (["assign", ["f", "?x"], ["g"]], {"(f o1)": 3.0}, {"(f o1)": 0.0}),
+    (["increase", ["f", "?x"], ["g"]], {"(f o1)": 2.5}, {"(f o1)": 2.5}),
+    (["assign", ["f", "?x"], ["*", ["g"], "3"]], {"(f o1)": 1.0}, {"(f o1)": 0.0}),
+    (["assign", ["f", "?x"], ["h", "?x", "?y"]], {"(f o1)": 1.0, "(g)": 4.0}, {"(f o1)": 0.0, "(g)": 4.0}),
+    (["assign", ["f", "?x"], ["-", ["f", "?x"], ["f", "?x"]]], {"(f o1)": 2.5}, {"(f o1)": 0.0}),
+    (["decrease", ["f", "?x"], "2.5"], {"(f o1)": 2.5, "(g)": 1.0}, {"(f o1)": 0.0, "(g)": 1.0}),
+    (["increase", ["f", "?x"], "1"], {"(f o1)": 2.0}, {"(f o1)": 3.0}),
+    (["assign", ["f", "?x"], "7"], {"(f o1)": 2.0}, {"(f o1)": 7.0}),
+    (["assign", ["f", "?x"], ["/", ["g"], "4"]], {"(f o1)": 2.0, "(g)": 1.0}, {"(f o1)": 0.25, "(g)": 1.0}),
+    (["assign", ["g"], ["+", ["f", "?x"], ["h", "?x", "?y"]]], {"(f o1)": 2.0, "(g)": 1.0}, {"(f o1)": 2.0, "(g)": 2.0}),
+    (["and_pair", ["assign", ["f", "?x"], ["g"]], ["increase", ["g"], ["f", "?x"]]], {"(f o1)": 2.0, "(g)": 5.0},
+     {"(f o1)": 5.0, "(g)": 7.0}),
+]
+
+
+def successor_probe(i):
+    """-> None, or a description of what is wrong with the successor produced by probe i"""
+    from pddl_plus_parser.lisp_parsers import PDDLTokenizer, TrajectoryParser
+    from pddl_plus_parser.models import Operator
+    eff, pre_fl, post_fl = SUCCESSOR_PROBES[i]
+    effs = list(eff[1:]) if eff[0] == "and_pair" else [eff]
+    text = G.domain_text([("act", [("?x", "t1"), ("?y", "t1")], ["and", ["p", "?x"]], ["and", ["q", "?x", "?y"]] + effs)], const=False)
+    world = lib.World(text, G.OBJECTS)
+    s0, _ = world.make_state({"(p o1)": True, "(r)": True}, dict(pre_fl))
+    op = Operator(world.domain.actions["act"], world.domain, ["o1", "o2"], world.objects)
+    s1 = op.apply(s0)
+    want, _ = world.make_state({"(p o1)": True, "(r)": True, "(q o1 o2)": True}, dict(post_fl))
+
+    def rb(s):
+        return TrajectoryParser(world.domain, world.problem).parse_state(PDDLTokenizer(pddl_str=s.serialize()).parse()[1:])
+
+    got_values = {lib.fluent_name(f): f.value for f in s1.state_fluents.values()}
+    if lib.state_atoms(s1) != lib.state_atoms(want) or got_values != post_fl:
+        return "SKIP"  # the transition itself is C03's subject; this probe is about states as values
+    bad = []
+    if not (s1 == want and want == s1):
+        bad.append(f"successor and a parsed state with the same facts and values are unequal: {s1.serialize().strip()} / {want.serialize().strip()}")
+    back = rb(s1)
+    if not (back == s1 and s1 == back):
+        bad.append(f"successor is unequal to its own text read back: {s1.serialize().strip()} / {back.serialize().strip()}")
+    if not (s1.copy() == s1):
+        bad.append("copy of the successor is unequal to it")
+    if not (rb(want) == back):
+        bad.append("equal states read back unequal")
+    return "; ".join(bad) or None
+
+
 def twin():
     """a deliberately wrong spec (equality ignores fluent values) must be refuted by a replayable pair"""
     task = {"atoms": ATOMS[:1], "fluents_a": FLUENTS[:1], "fluents_b": FLUENTS[:1], "reverse_b": False}
@@ -286,6 +338,17 @@ def main(tier):
             rep.errors.append(f"{t}: {r.get('detail')}")
         elif len(samples) < 3 and r["paths"] > 10:
             samples.append({"task": t, "paths": r["paths"], "obligations": r["obligations"]})
+    probes_bad = probes_skipped = 0
+    for i in range(len(SUCCESSOR_PROBES)):
+        try:
+            what = successor_probe(i)
+        except Exception as e:  # noqa
+            what = f"raised {type(e).__name__}: {e}"
+        if what == "SKIP":
+            probes_skipped += 1
+        elif what:
+            probes_bad += 1
+            rep.violation(f"successor probe {i} {SUCCESSOR_PROBES[i][0]}: {what}", {"property": "C14", "kind": "c14_probe", "probe": i})
     if not twin():
         rep.twins_failed.append("vacuity twin failed")
     q = dict(agg)
@@ -296,6 +359,9 @@ def main(tier):
                 "with every membership bit and every fluent value symbolic; non-trivial = >=2 feasible paths",
         "samples": samples or [{"note": "none"}], "outcomes": dict(c), "paths": paths, "obligations": obligations, "queries": q,
         "unconfirmed_counterexamples": unconfirmed, "exhaustive": True,
+        "concrete_successor_probes": {"count": len(SUCCESSOR_PROBES), "failed": probes_bad, "skipped_because_the_transition_differs": probes_skipped,
+                                      "what": "states produced by Operator.apply (effects reading undefined fluents, results 0 / whole / fractional) compared with "
+                                              "parsed states of the same content and with their own text read back; concrete because number printing is outside the symbolic model"},
         "bounds": {"atoms": "3-4 ground atoms per state (unary, binary, repeated-argument, zero-arity)", "fluents": "0-3 fluents "
                    "(unary, zero-arity, repeated-argument), equal or different fluent sets", "orders": "same / reversed insertion order", "routes": "both states by the problem parser; or the second by the trajectory parser with a problem (facts of a subtype object carry the object's own type)",
                    "outside": "-0.0 vs 0.0, NaN; larger states (the boolean part is decided at state construction; the solver's "
@@ -310,6 +376,14 @@ def main(tier):
 
 
 def replay(payload, path):
+    if payload.get("kind") == "c14_probe":
+        what = successor_probe(payload["probe"])
+        print(what)
+        if what and what != "SKIP":
+            print(f"VIOLATION property=C14 replay={path}")
+            return 1
+        print("does not reproduce")
+        return 0
     cx = payload["cex"]
     rp = concrete_pair(payload["task"], cx["A"], cx["B"], cx["XA"], cx["XB"])
     print(json.dumps(rp, indent=1, default=str))
